@@ -19,9 +19,11 @@ def _events(n, rng):
 
     rec = data.Recording(path="r.wav", duration=100.0, channels=1, samplerate=8000,
                          uuid=uuid.UUID(int=rng.getrandbits(128)))
+    geoms_ = [lambda i: data.TimeInterval(coordinates=[i, i + 0.5]), lambda i: None, lambda i: data.Point(coordinates=[i, 1000.0]),
+              lambda i: data.TimeInterval(coordinates=[i, i + 0.5]), lambda i: data.BoundingBox(coordinates=[i, 10.0, i + 1.0, 20.0])]
+    # a sound event may legally have no geometry: it is still an input event
     return [
-        data.SoundEvent(uuid=uuid.UUID(int=rng.getrandbits(128)), recording=rec,
-                        geometry=data.TimeInterval(coordinates=[i, i + 0.5]))
+        data.SoundEvent(uuid=uuid.UUID(int=rng.getrandbits(128)), recording=rec, geometry=rng.choice(geoms_)(i))
         for i in range(n)
     ]
 
